@@ -72,6 +72,8 @@ func runC20(c *Ctx) {
 	checkPublish(c, func(n string) string { return "C20-" + n })
 	checkErrorTablesAgree(c, "C20-R3")
 	checkBackendErrorIsTheHaystack(c, "C20-R3")
+	checkOldBtcdTableBehindVersionGate(c, "C20-R3")
+	checkSortInputKeyedByTxid(c, "C20-R4")
 	runC20Rest(c)
 }
 
@@ -623,4 +625,117 @@ func checkBackendErrorIsTheHaystack(c *Ctx, rule string) {
 		}
 	}
 	c.Floor(rule, "backend error classifications by message", n, 5)
+}
+
+// checkOldBtcdTableBehindVersionGate: btcd changed the text of its mempool answers in v0.24.2 (the release that brought
+// testmempoolaccept); the messages of older versions are kept in a table of their own, which is the only one that knows
+// "already have transaction". That table is tried for exactly the backends that predate the change: its loop is reachable
+// only over the edge on which the backend reports NO testmempoolaccept support. Inverted, an old btcd's "already in
+// mempool" answer at a rebroadcast is unclassified, the transaction is treated as rejected and forgotten.
+func checkOldBtcdTableBehindVersionGate(c *Ctx, rule string) {
+	p := c.P
+	n := 0
+	for _, fn := range p.FuncsIn("chain") {
+		if fn.Parent() != nil || len(callsNamed(fn, "SupportTestMempoolAccept")) == 0 {
+			// a mapper that cannot ask for the backend's version (neutrino) may try both tables
+			continue
+		}
+		// the places where the old table is used: a loop ranging over it, or a call it is handed to
+		var sites []ssa.Instruction
+		for _, l := range loopsOf(fn) {
+			if l.Kind != "for" && strings.Contains(l.Over, "Pre2402") {
+				sites = append(sites, l.Header.Instrs[0])
+			}
+		}
+		for _, ci := range callsOf(fn) {
+			for _, a := range ci.Common().Args {
+				if isGlobalLoad(a, "BtcdErrMapPre2402") {
+					sites = append(sites, ci)
+				}
+			}
+		}
+		for _, site := range sites {
+			n++
+			tgt := site
+			q := &PathQuery{Fn: fn}
+			q.EdgeBarrier = func(from *ssa.BasicBlock, si int) bool {
+				ef := edgeFactOf(from, si)
+				if ef == nil || ef.Kind != "false" {
+					return false
+				}
+				call, ok := ef.V.(*ssa.Call)
+				return ok && calleeShort(&call.Call) == "SupportTestMempoolAccept"
+			}
+			q.Target = func(ins ssa.Instruction, _ *ssa.BasicBlock) bool {
+				return ins == tgt || (ins.Block() == tgt.Block() && ins == tgt.Block().Instrs[0] && tgt == tgt.Block().Instrs[0])
+			}
+			hits := q.From(nil)
+			c.Check(rule, "old-btcd-table-tried-for-old-backends:"+fn.Name(), site.Pos(), len(hits) == 0,
+				fnName(fn)+" tries the table of pre-v0.24.2 btcd messages on a path other than 'the backend does not support testmempoolaccept': for the old backends the table is skipped, so their 'already have transaction' answer is not recognised and a rebroadcast transaction is removed from the wallet")
+		}
+	}
+	c.Floor(rule, "uses of the pre-v0.24.2 btcd message table", n, 1)
+}
+
+// checkSortInputKeyedByTxid: the dependency sort finds a transaction's parents by looking its inputs' previous-outpoint
+// hashes up in the set it is given, and those are transaction ids. The set is therefore keyed by txid: every key under
+// which a transaction is put into a map handed to DependencySort is the key of the record set (records are stored under
+// their txid), the record's Hash, or TxHash() — never the witness hash, which equals the txid only for transactions
+// without witness data: with it no edge is found for segwit parents and children are offered before their parents.
+func checkSortInputKeyedByTxid(c *Ctx, rule string) {
+	p := c.P
+	ds := p.Func("wtxmgr", "", "DependencySort")
+	if ds == nil {
+		c.Unresolved(rule, "wtxmgr.DependencySort")
+		return
+	}
+	n := 0
+	for _, fn := range p.FuncsIn("wtxmgr") {
+		for _, ci := range callsOf(fn) {
+			call, ok := ci.(*ssa.Call)
+			if !ok || !p.isCallTo(call, ds) || len(call.Call.Args) == 0 {
+				continue
+			}
+			set := stripConv(call.Call.Args[0])
+			for _, b := range fn.Blocks {
+				for _, ins := range b.Instrs {
+					mu, ok := ins.(*ssa.MapUpdate)
+					if !ok || stripConv(mu.Map) != set {
+						continue
+					}
+					n++
+					okKey := false
+					why := "an unrecognised value"
+					if ex, isEx := stripConv(mu.Key).(*ssa.Extract); isEx {
+						if _, isNext := ex.Tuple.(*ssa.Next); isNext && ex.Index == 1 {
+							okKey = true // the record set's own key
+						}
+					}
+					for _, o := range (&Slicer{P: p, KeepExtract: true}).Origins(mu.Key) {
+						switch x := o.(type) {
+						case *ssa.Call:
+							nm := calleeShort(&x.Call)
+							if nm == "TxHash" {
+								okKey = true
+							} else if nm == "WitnessHash" {
+								why = "the witness hash"
+							}
+						case *ssa.Extract:
+							// key of a range over a map (ssa.Next): the record set's own key
+							if _, isNext := x.Tuple.(*ssa.Next); isNext && x.Index == 1 {
+								okKey = true
+							}
+						default:
+							if _, f, _, okf := fieldOf(o); okf && f == "Hash" {
+								okKey = true
+							}
+						}
+					}
+					c.Check(rule, "sort-input-keyed-by-txid:"+fn.Name(), mu.Pos(), okKey,
+						fnName(fn)+" puts a transaction into the set handed to DependencySort under "+why+" instead of its transaction id: the sort looks parents up by txid, finds no edges for transactions with witness data and returns them in map order, so children are offered to the backend before their parents and are rejected and forgotten")
+				}
+			}
+		}
+	}
+	c.Floor(rule, "insertions into the dependency sort's input set", n, 1)
 }
